@@ -423,6 +423,11 @@ fn main() {
         auts(&mut ctx, 1, &t, "nt regress dim=2 size=8");
         morph(&mut ctx, 1, &t, &t, "nt regress dim=2 size=8");
         minimg(&mut ctx, &t, "nt regress dim=2 size=8");
+        // … and a base image outside 1..|b| was answered with Some (one-chamber symbol, v = 3, 3)
+        let mut one = Tab { size: 1, dim: 2, op: vec![vec![0, 1]; 3], v: vec![vec![0; 2]; 2] };
+        one.set_v_orbit(0, 1, 3);
+        one.set_v_orbit(1, 1, 3);
+        morph(&mut ctx, 1, &one, &one, "regress dim=2 size=1");
     }
 
     // (1) 2D: every connected D-set up to isomorphism, symmetry-breaking branching assignments
@@ -442,18 +447,22 @@ fn main() {
             let (vals, cap): (&[usize], usize) = if !th {
                 match n {
                     1..=5 => (&[1, 2, 3], 729),
-                    6 => (&[1, 2, 3], if sym { 243 } else { 27 }),
-                    _ => (&[1, 2, 3], if sym { 81 } else { 3 }),
+                    6 => (&[1, 2, 3], if sym { 729 } else { 81 }),
+                    _ => (&[1, 2, 3], if sym { 243 } else { 9 }),
                 }
             } else {
                 match n {
                     1..=4 => (&[1, 2, 3, 4, 6], 3125),
                     5 | 6 => (&[1, 2, 3], 2187),
-                    7 => if sym { (&[3, 4, 6], 729) } else { (&[1, 2, 3], 243) },
-                    _ => if sym { (&[3, 4, 6], 729) } else { (&[1, 2, 3], 27) },
+                    7 => (&[1, 2, 3], if sym { 2187 } else { 243 }),
+                    _ => (&[1, 2, 3], if sym { 729 } else { 81 }),
                 }
             };
-            let syms = assignments(t, vals, cap, &mut rng);
+            let mut syms = assignments(t, vals, cap, &mut rng);
+            if th && sym && n >= 5 {
+                // larger branching values on the symmetric D-sets
+                syms.extend(assignments(t, &[3, 4, 6], if n <= 6 { 243 } else { 729 }, &mut rng));
+            }
             for (k, s) in syms.iter().enumerate() {
                 symbol_cases(&mut ctx, s, *aut, &mut rng, n <= 3, &tag);
                 // a morphism between different symbols on the same D-set (mostly non-existent)
@@ -463,11 +472,11 @@ fn main() {
                 }
             }
             // covers of some of the symbols, spread over the assignment list
-            let ncov = if th { if n <= 4 { 12 } else if n <= 6 { 4 } else { 1 } } else if n <= 4 { 3 } else if n <= 5 { 1 } else { 0 };
+            let ncov = if th { if n <= 4 { 24 } else if n <= 6 { 8 } else { 2 } } else if n <= 4 { 4 } else if n <= 6 { 1 } else { 0 };
             if ncov > 0 {
                 let step = std::cmp::max(1, syms.len() / ncov);
                 for s in syms.iter().step_by(step).take(ncov) {
-                    for c in covers_of(s, &[2, 3], if th { 60 } else { 30 }, if th { 2 } else { 1 }, &mut rng) {
+                    for c in covers_of(s, &[2, 3], if th { 120 } else { 40 }, if th { 3 } else { 1 }, &mut rng) {
                         let ctag = format!("nt cover dim=2 size={} sheets={}", c.size.min(18), c.size / s.size);
                         cover_case(&mut ctx, s, &c, &ctag);
                         morph(&mut ctx, 1, &c, s, &ctag);
